@@ -243,9 +243,36 @@ func runC09(c *Ctx) {
 	s.checkHealthReset(c, "health-reset")
 	s.checkStatusStoreCallsHook(c, "status-store-calls-hook")
 	s.checkDaemonRelease(c, "daemon-released-after-configured-stop")
+	s.checkProberLifecycle(c, "prober-lifecycle")
 	s.checkStartRefusedWhenRegistered(c, "one-supervisor-per-state-record")
 	// a stop request changes the status of running-class and Pending processes only (terminal states stay)
 	s.checkStopCoreTable(c, "stop-core-explicit-table", "explicit")
+	// the derived fields of the record (is_running ...) are refreshed when the terminal status is stored: once the
+	// instance is unregistered the registry hands out the record as it is
+	{
+		rT := c.Rule("terminal-refreshes-is-running", "in the terminal function every path from the call that stores the final status to the return passes a store of IsRunning (computed from the status) into the state record")
+		refresh := p.Deep(StoreTo("IsRunning", s.FIsRunning))
+		for _, t := range s.Terminals {
+			c.Touch(t)
+			var setCalls []ssa.Instruction
+			AllInstrs(t, func(in ssa.Instruction) {
+				if call, ok := in.(*ssa.Call); ok && p.Deep(StoreTo("Status", s.FStatus)).MayAt(call) {
+					setCalls = append(setCalls, in)
+				}
+			})
+			okT := len(setCalls) > 0
+			for _, sc := range setCalls {
+				if refresh.MustAt(sc) {
+					continue
+				}
+				r := MustFollow([]Pt{after(sc)}, refresh, nil)
+				if !r.OK {
+					okT = false
+				}
+			}
+			c.Check(okT, rT, p.FuncKey(t), FirstPos(p, t), "is_running is refreshed after the final status", "the terminal function stores the final status without refreshing IsRunning in the record: after the instance is unregistered the API keeps reporting is_running=true for a process that has ended")
+		}
+	}
 	rRec := c.Rule("registry-record-is-live-record", "the function that moves a process to another name re-registers the state record it found (the one the instance writes to), not a copy, and stores the new name into it on every path through the move")
 	nRen := 0
 	for _, f := range p.FuncsOfPkg("app") {
@@ -478,7 +505,7 @@ func (s *Sel) checkExitCodeProvenance(c *Ctx, ruleID string) {
 			if len(ret.Results) != 1 {
 				continue
 			}
-			v := stripConv(ret.Results[0])
+			v := stripConv(RetVals(ret)[0])
 			if k, isK := ConstInt(v); isK {
 				if k == 0 {
 					ok, why = false, "returns the constant 0 on a path"
@@ -653,5 +680,49 @@ func (s *Sel) checkDaemonRelease(c *Ctx, ruleID string) {
 	}
 	if n == 0 {
 		c.Bad(rule, "none", "", "no function runs the configured shutdown command")
+	}
+	// the notification itself: sent whenever the process is a daemon - it does not depend on the recorded exit
+	// code or status (which other goroutines write) - and the wait is released by nothing but that notification
+	for _, g := range p.FuncsOfPkg("app") {
+		if !s.IsProcessMethod(g) {
+			continue
+		}
+		for _, sd := range DirectSites(g, release.site) {
+			okG := true
+			for _, gd := range GuardsOf(sd) {
+				v, _ := gd.BoolVal()
+				if PathOf(v).LastField() == s.FIsDaemon {
+					continue
+				}
+				if cmp, isCmp := gd.Cmp(); isCmp && (PathOf(cmp.X).LastField() == s.FIsDaemon || PathOf(cmp.Y).LastField() == s.FIsDaemon) {
+					continue
+				}
+				okG = false
+			}
+			c.Touch(g)
+			c.Check(okG, rule, "notify-guard:"+p.FuncKey(g), p.InstrPos(sd), "the notification depends on IsDaemon only", "the daemon-stopped notification is sent only under a condition other than IsDaemon (for instance the recorded exit code, which a waiting dependent or a failed earlier launch may have set): the one-shot notification is dropped, the run loop stays in the daemon wait, the process stays Launched/Terminating for ever and shutdown hangs")
+		}
+	}
+	for _, g := range p.FuncsOfPkg("app") {
+		if !s.IsProcessMethod(g) || g.Parent() != nil {
+			continue
+		}
+		AllInstrs(g, func(in ssa.Instruction) {
+			sel, ok := in.(*ssa.Select)
+			if !ok {
+				return
+			}
+			hasState, other := false, false
+			for _, st := range sel.States {
+				if st.Dir == types.RecvOnly && PathOf(st.Chan).LastField() == s.FStateChan {
+					hasState = true
+				} else {
+					other = true
+				}
+			}
+			if hasState {
+				c.Check(!other && sel.Blocking, rule, "wait-only-notification:"+p.FuncKey(g), p.InstrPos(sel), "the daemon wait ends only on the notification", "the daemon wait can also end on another event (for instance the cancellation of the run context, which the stop core performs before it runs the shutdown command): the daemon is reported done, unregistered and its dependencies are stopped while it is still alive, and a start request is accepted next to it")
+			}
+		})
 	}
 }
